@@ -14,7 +14,7 @@ func init() {
 			"harness/ggml/zz_verif_gguf_child_test.go": "fs/ggml/zz_verif_gguf_child_test.go",
 		},
 	}, map[string]propSpec{
-		"C10": {level: "fault_enumeration", quickS: 45, thoroughS: 720,
+		"C10": {level: "fault_enumeration", quickS: 45, thoroughS: 660,
 			probes: []string{"ref_decoded_ok", "trunc_then_err", "ow_then_err", "ow_then_ok", "flip_then_ok", "flip_then_err",
 				"retype_decoded", "accessors_on_faulty_model", "rderr_fired", "skerr_fired", "short_reads"}},
 	})
